@@ -125,6 +125,21 @@ theorem applyOp_restandardises (sq : α → α) (needs : Bool) (op : Op α) (h :
       by_cases h2 : b.taxa.length < k
       · rw [if_pos h2, if_pos h2]; rfl
       · rw [if_neg h2, if_neg h2]; rfl
+  | insertMany ks v =>
+    dsimp only [applyOp, applyRaw, rawOf]
+    rw [unscale_length]
+    by_cases h1 : v.values.length ≠ b.traits.length
+    · rw [if_pos h1, if_pos h1]; rfl
+    · rw [if_neg h1, if_neg h1]
+      by_cases h2 : (!ks.all fun x => decide (x ≤ b.taxa.length)) = true
+      · rw [if_pos h2, if_pos h2]; rfl
+      · rw [if_neg h2, if_neg h2]
+        by_cases h3 : ks.length ≠ v.taxa.length
+        · rw [if_pos h3, if_pos h3]; rfl
+        · rw [if_neg h3, if_neg h3]
+          by_cases h4 : (!LabelMat.isSorted ks) = true
+          · rw [if_pos h4, if_pos h4]; rfl
+          · rw [if_neg h4, if_neg h4]; rfl
   | adjoin v =>
     dsimp only [applyOp, applyRaw, rawOf]
     rw [unscale_length]
@@ -158,6 +173,11 @@ theorem applyOp_keepsRaw (sq : α → α) (needs : Bool) (op : Op α) (h : op.ke
   | insert k v =>
     rw [applyOp_restandardises sq needs _ rfl]
     cases hr : applyRaw (Op.insert k v) (rawOf b) with
+    | error e => rfl
+    | ok r => simp [Except.map, rawOf, unscale_fromNumpy, fromNumpy_taxa]
+  | insertMany ks v =>
+    rw [applyOp_restandardises sq needs _ rfl]
+    cases hr : applyRaw (Op.insertMany ks v) (rawOf b) with
     | error e => rfl
     | ok r => simp [Except.map, rawOf, unscale_fromNumpy, fromNumpy_taxa]
   | adjoin v =>
